@@ -8,6 +8,7 @@ Model: Model/LayoutLookup.lean (`Coverage.byteSize`, `ClassDef.byteSize`, `ppf2C
 -/
 import FontVerif.Props.C16Ppf2Dev
 import FontVerif.Lemmas.LayoutSizes
+import FontVerif.Lemmas.LayoutRanges
 set_option linter.unusedVariables false
 namespace FontVerif.C16
 open FontVerif FontVerif.Layout
@@ -59,35 +60,49 @@ theorem ppf2_coverage_estimate_sound (cov : Coverage) (cd : ClassDef) (s t : Nat
       · cases hgp)
   omega
 
-/-- **ppf2_accepted_piece_fits_partial.**  The composition C05 needs.  Take a piece `(s, t)` of the
-repaired loop (`ppf2DPieces true`), the coverage and class definition 1 that `split_off_ppf2` builds
-for it, and the loop's running totals for it.  If the loop's acceptance test holds for the piece —
-estimated records + device tables + coverage + class definitions − the largest of the three tables
-≤ 65535 — then the same bound holds for the TRUE sizes: the subtable, its device tables (each once)
-and all but the largest of its coverage / class-definition tables end within 64 KiB of the subtable's
-start, i.e. every 16-bit offset of the piece can be resolved.
-PARTIAL: the records / device part is exact (`ppf2_piece_estimates_exact`), the coverage part is
-proved (`ppf2_coverage_estimate_sound`), the class-definition part is proved up to
-`classdef_emitted_size_le`; what is NOT proved is hypothesis `hcd`: that the number of class ranges of
-the piece's class definition is at most the sum of the per-class run counts
-(`Σ count_num_ranges(glyphs of class c)`) the estimator adds up.  Full statement: the same theorem
-without `hcd`. -/
-theorem ppf2_accepted_piece_fits_partial (cov : Coverage) (cd cd2 : ClassDef) (recSize : Nat)
+/-- **ppf2_classdef_estimate_sound.**  For EVERY coverage table, class definition 1 and class range
+`s..t`: the class definition 1 `split_off_ppf2` builds for the piece (classes shifted down, the first
+class of the range dropped as the new class 0, format 1 or 2 as the builder chooses) is never larger
+than the loop's running `class_def_1_size` (4 + 6 bytes per run of consecutive glyphs of every class
+in the range, original class 0 skipped): a class definition has at most as many ranges as its classes
+have runs (`iterClassRanges_le`). -/
+theorem ppf2_classdef_estimate_sound (cov : Coverage) (cd : ClassDef) (s t : Nat) :
+    (buildClassDef (pieceClassMap cov cd s t)).byteSize ≤ ppf2Cd1Estimate ⟨gcOf cov cd⟩ s t :=
+  Nat.le_trans (classdef_emitted_size_le _) (ppf2_cd1_ranges_le cov cd s t)
+
+/-- the piece `split_off_ppf2` builds: exactly these coverage and class-definition tables -/
+theorem splitOffPpf2_tables {V : Type} (tbl : PairPos2 V) (s t : Nat) (p : PairPos2 V)
+    (h : splitOffPpf2 tbl s t = some p) :
+    p.cov = buildCoverage (pieceGlyphs tbl.cov tbl.classDef1 s t) ∧
+    p.classDef1 = buildClassDef (pieceClassMap tbl.cov tbl.classDef1 s t) ∧ p.classDef2 = tbl.classDef2 := by
+  unfold splitOffPpf2 at h
+  split at h
+  · cases h
+  · cases h; exact ⟨rfl, rfl, rfl⟩
+
+/-- **ppf2_accepted_piece_fits.**  The composition C05 needs.  Take a piece `(s, t)` of the repaired
+loop (`ppf2DPieces true`) on ANY coverage / class definitions / record size / device-offset pattern.
+If the loop's acceptance test holds for the piece — estimated records + device tables + coverage +
+class definitions − the largest of the three tables ≤ 65535 — then the same bound holds for the TRUE
+sizes of what `split_off_ppf2` builds: the subtable, its device tables (each distinct object once) and
+all but the largest of its coverage / class-definition tables end within 64 KiB of the subtable's
+start, i.e. every 16-bit offset of the piece can be resolved.  (Records / device part exact:
+`ppf2_piece_estimates_exact`; coverage: `ppf2_coverage_estimate_sound`; class definition 1:
+`ppf2_classdef_estimate_sound`; class definition 2 is reused unchanged.) -/
+theorem ppf2_accepted_piece_fits (cov : Coverage) (cd cd2 : ClassDef) (recSize : Nat)
     (rows : List (List (Nat × Nat))) (ps : List (Nat × Nat × Nat))
     (h : ppf2DPieces true (gcOf cov cd) recSize cd2.byteSize rows = some ps)
-    (p : Nat × Nat × Nat) (hp : p ∈ ps) (classMap : List (Nat × Nat))
-    (hcd : 4 + 6 * (iterClassRanges (collectItems classMap)).length ≤
-      ppf2Cd1Estimate ⟨gcOf cov cd⟩ p.1 p.2.1)
+    (p : Nat × Nat × Nat) (hp : p ∈ ps)
     (haccept : p.2.2 + ppf2CovEstimate ⟨gcOf cov cd⟩ p.1 p.2.1 + ppf2Cd1Estimate ⟨gcOf cov cd⟩ p.1 p.2.1 +
       cd2.byteSize - max (max (ppf2CovEstimate ⟨gcOf cov cd⟩ p.1 p.2.1)
         (ppf2Cd1Estimate ⟨gcOf cov cd⟩ p.1 p.2.1)) cd2.byteSize ≤ 65535) :
     ppf2PieceSize recSize rows p.1 p.2.1 + (buildCoverage (pieceGlyphs cov cd p.1 p.2.1)).byteSize +
-      (buildClassDef classMap).byteSize + cd2.byteSize -
-      max (max (buildCoverage (pieceGlyphs cov cd p.1 p.2.1)).byteSize (buildClassDef classMap).byteSize)
-        cd2.byteSize ≤ 65535 := by
+      (buildClassDef (pieceClassMap cov cd p.1 p.2.1)).byteSize + cd2.byteSize -
+      max (max (buildCoverage (pieceGlyphs cov cd p.1 p.2.1)).byteSize
+        (buildClassDef (pieceClassMap cov cd p.1 p.2.1)).byteSize) cd2.byteSize ≤ 65535 := by
   have h1 := (ppf2_piece_estimates_exact _ recSize _ rows ps h p hp).2
   have h2 := ppf2_coverage_estimate_sound cov cd p.1 p.2.1
-  have h3 := Nat.le_trans (classdef_emitted_size_le classMap) hcd
+  have h3 := ppf2_classdef_estimate_sound cov cd p.1 p.2.1
   rw [← h1]
   omega
 
